@@ -102,6 +102,103 @@ def run(ctx):
         extra(ctx)
 
 
+def run_select(ctx):
+    """algorithm mismatch and permission enforcement at every key-consuming entry point"""
+    import keys as K, jwsgen as G, jwegen as E
+    from jwsgen import b64u
+    rng = ctx.rng
+    pool = K.pool(ctx.jose)
+    t = ctx.tables
+    names = {k: [a["name"] for a in t["algs"] if a["kind"] == k] for k in ("sign", "wrap", "encr", "exch")}
+    extra = ["AAA", "HS3", "zzz", "", "none"]
+    ops, meta = [], []
+
+    def add(op, args, halg, kalg, also=None, perm=None):
+        ops.append((op, args))
+        meta.append((halg, kalg, also, perm))
+
+    # --- signing and verifying with an oct key that is long enough for every HS* ---
+    key = pool["oct-64"]
+    toks = {}
+    mk = [("jws.sig", {"jws": {"payload": "cGF5"}, "sig": {"protected": {"alg": h}}, "jwk": key}) for h in ("HS256", "HS384", "HS512")]
+    for (o, a), r in zip(mk, ctx.real(mk)):
+        toks[a["sig"]["protected"]["alg"]] = r["jws"]
+    for h in ("HS256", "HS384", "HS512"):
+        for k in names["sign"] + extra:
+            add("jws.sig", {"jws": {"payload": "cGF5"}, "sig": {"protected": {"alg": h}}, "jwk": dict(key, alg=k)}, h, k)
+            add("jws.sig", {"jws": {"payload": "cGF5"}, "sig": {"header": {"alg": h}}, "jwk": dict(key, alg=k)}, h, k)
+            add("jws.ver", {"jws": toks[h], "jwk": dict(key, alg=k)}, h, k)
+            add("jws.ver", {"jws": toks[h], "jwk": [dict(key, alg=k)], "all": True}, h, k)
+    # --- unwrapping: valid A128KW / dir / A128GCMKW tokens ---
+    kw_key = pool["oct-16"]
+    mk = [("jwe.enc", {"jwe": {"protected": {"alg": w, "enc": e}}, "jwk": kw_key if w != "dir" else dict(pool["oct-32"], alg=e), "pt": "00", "rand": "11" * 100})
+          for w, e in (("A128KW", "A128CBC-HS256"), ("A128GCMKW", "A128GCM"), ("dir", "A128CBC-HS256"))]
+    wt = {}
+    for (o, a), r in zip(mk, ctx.real(mk)):
+        wt[a["jwe"]["protected"]["alg"]] = (r["jwe"], a["jwe"]["protected"]["enc"], a["jwk"])
+    for w, (tok, e, k0) in wt.items():
+        for k in names["wrap"] + names["encr"] + extra:
+            add("jwe.dec_jwk", {"jwe": tok, "jwk": dict(k0, alg=k), "rand": "00" * 64}, w, k, also=e)
+    # --- content encryption / decryption ---
+    for e in names["encr"]:
+        cek = {"kty": "oct", "k": b64u(rng.randbytes(E.CEKLEN[e]))}
+        r = ctx.real([("jwe.enc_cek", {"jwe": {"protected": {"enc": e}}, "cek": cek, "pt": "00", "rand": "22" * 32})])[0]
+        for k in names["encr"] + extra:
+            add("jwe.enc_cek", {"jwe": {"protected": {"enc": e}}, "cek": dict(cek, alg=k), "pt": "00", "rand": "22" * 32}, e, k)
+            add("jwe.enc_cek", {"jwe": {"unprotected": {"enc": e}}, "cek": dict(cek, alg=k), "pt": "00", "rand": "22" * 32}, e, k)
+            add("jwe.dec_cek", {"jwe": r["jwe"], "cek": dict(cek, alg=k)}, e, k)
+    # --- key exchange ---
+    a, b = pool["EC-P256"], K.public(pool["EC-P256-b"])
+    for x in names["exch"] + extra:
+        for y in names["exch"] + extra:
+            add("jwk.exc", {"prv": dict(a, alg=x), "pub": dict(b, alg=y)}, x, y)
+    # --- permissions at every entry point: the operation each one demands ---
+    perm_cases = [("use", "sig"), ("use", "enc"), ("use", "other"), ("key_ops", []), ("key_ops", ["sign"]), ("key_ops", ["verify"]),
+                  ("key_ops", ["encrypt"]), ("key_ops", ["decrypt"]), ("key_ops", ["wrapKey"]), ("key_ops", ["unwrapKey"]),
+                  ("key_ops", ["deriveKey"]), ("key_ops", ["deriveBits"])]
+    cekA = {"kty": "oct", "k": b64u(rng.randbytes(16))}
+    encA = ctx.real([("jwe.enc_cek", {"jwe": {"protected": {"enc": "A128GCM"}}, "cek": cekA, "pt": "00", "rand": "22" * 32})])[0]["jwe"]
+    entry = [("jws.sig", lambda k: {"jws": {"payload": "cGF5"}, "sig": {"protected": {"alg": "HS256"}}, "jwk": dict(key, **k)}, "sign"),
+             ("jws.ver", lambda k: {"jws": toks["HS256"], "jwk": dict(key, **k)}, "verify"),
+             ("jwe.enc_jwk", lambda k: {"jwe": {"protected": {"alg": "A128KW", "enc": "A128GCM"}}, "jwk": dict(kw_key, **k), "cek": {}, "rand": "33" * 64}, "wrapKey"),
+             ("jwe.dec_jwk", lambda k: {"jwe": wt["A128KW"][0], "jwk": dict(kw_key, **k), "rand": "00" * 64}, "unwrapKey"),
+             ("jwe.enc_jwk", lambda k: {"jwe": {"protected": {"alg": "dir", "enc": "A128CBC-HS256"}}, "jwk": dict(wt["dir"][2], **k), "cek": {}, "rand": "33" * 64}, "encrypt"),
+             ("jwe.dec_jwk", lambda k: {"jwe": wt["dir"][0], "jwk": dict(wt["dir"][2], **k), "rand": "00" * 64}, "decrypt"),
+             ("jwe.enc_cek", lambda k: {"jwe": {"protected": {"enc": "A128GCM"}}, "cek": dict(cekA, **k), "pt": "00", "rand": "22" * 32}, "encrypt"),
+             ("jwe.dec_cek", lambda k: {"jwe": encA, "cek": dict(cekA, **k)}, "decrypt"),
+             ("jwk.exc", lambda k: {"prv": dict(a, **k), "pub": b}, "deriveKey"),
+             ("jwk.exc", lambda k: {"prv": a, "pub": dict(b, **k)}, "deriveKey")]
+    for op, build, need in entry:
+        for m, v in perm_cases:
+            add(op, build({m: v}), None, None, perm=(need, {m: v}))
+
+    def ok_of(op, r):
+        if op in ("jws.sig", "jwe.enc_cek", "jwe.dec_cek", "jwe.enc_jwk"):
+            return bool(r.get("ok"))
+        if op == "jws.ver":
+            return bool(r.get("r"))
+        return "v" in r
+
+    real, model = ctx.compare(ops, None, lambda o, a, r: json.dumps(a, sort_keys=True)[:3000])
+    for (op, args), (halg, kalg, also, perm), r in zip(ops, meta, real):
+        if "crash" in r:
+            continue
+        ok = ok_of(op, r)
+        if perm is None:
+            same = (kalg == halg) or (also is not None and kalg == also)
+            if ok and not same:
+                ctx.pfails.append(("select:%s:accepts-mismatch" % op, "%s succeeded although the key declares %r and the header names %r" % (op, kalg, halg), op, args, r))
+            if not ok and same and halg not in extra:
+                ctx.pfails.append(("select:%s:refuses-match" % op, "%s refused although key alg = header alg = %r" % (op, halg), op, args, r))
+        else:
+            need, md = perm
+            granted = statement_grant(dict({"kty": "x"}, **md), False, need)
+            if ok != granted:
+                ctx.pfails.append(("perm:%s:%s" % (op, "accepts" if ok else "refuses"),
+                                   "%s with key metadata %s: operation %s is %sgranted but the call %s" % (op, json.dumps(md), need, "" if granted else "not ", "succeeded" if ok else "failed"), op, args, r))
+    ctx.count("select-cases", len(ops))
+
+
 def replay(ctx, rp):
     ops = [(o, a) for o, a in rp.get("ops", [])] + [(d["op"], d["args"]) for d in rp.get("correspondence_disagreements", [])]
     ctx.compare(ops, p_check, nontrivial)
